@@ -192,6 +192,7 @@ class Controller:
         self._keepalive = []
         self.limit_violations = []
         self.negative_limits = []
+        self.waited_on_limits = False
         self.thread = threading.get_ident()
 
     # -- wiring ------------------------------------------------------------------------------
@@ -320,6 +321,8 @@ class Controller:
 
     def on_get(self):
         s = self.scheduler
+        if s._jobs_pending_limits:
+            self.waited_on_limits = True
         lu = dict(s.limits_used)
         for r, v in lu.items():
             if v < 0:
